@@ -12,6 +12,8 @@ package messages
 //@ ghost var type0 string
 //@ ghost var fp0 string
 //@ ghost var jsonOK bool
+//@ ghost var patGiven bool
+//@ ghost var pat0 string
 //@ ghost var sid0 string
 //@ ghost var ans0 string
 //@ ghost var clients0 int
@@ -37,6 +39,9 @@ package messages
 //@   after call Unmarshal ghost sid0 = message.Sid
 //@   after call Unmarshal ghost clients0 = message.Clients
 //@   ensures {returns-the-decoded-fields} err == nil ==> sid == sid0 && clients == clients0
+//@   after call Unmarshal ghost patGiven = message.AcceptedRelayPattern != nil
+//@   after call Unmarshal ghost pat0 = ite(message.AcceptedRelayPattern != nil, *message.AcceptedRelayPattern, "")
+//@   ensures {relay-pattern-reported-as-given-even-when-empty} err == nil ==> relayPrefixAware == patGiven && relayPrefix == pat0
 //@   ensures {accepts-every-valid-poll} jsonOK && major == "1" && sid0 != "" && (nat0 == "" || nat0 == "unknown" || nat0 == "restricted" || nat0 == "unrestricted") ==> err == nil
 //
 //@ func DecodeAnswerRequest(data []byte) (answer string, sid string, err error)
